@@ -7,6 +7,8 @@ import (
 )
 
 var workerFrom = -1
+var shrinkID = -1
+var shrinkM bool
 
 func main() {
 	out := flag.String("out", "", "output directory for case files and run.json")
@@ -14,11 +16,19 @@ func main() {
 	tier := flag.String("tier", "quick", "quick|thorough")
 	repo := flag.String("repo", "/repo", "path of the ichiban/prolog working tree (for generators)")
 	replay := flag.String("replay", "", "replay file to re-run on the implementation")
+	observe := flag.String("observe", "", "internal: observe one program given as JSON and print its Coq case line")
+	shrink := flag.Int("shrink", -1, "shrink the failing case with this id (program properties)")
+	shrinkModel := flag.Bool("shrink-model", false, "shrink with respect to the model M instead of the reference semantics S")
 	flag.IntVar(&workerFrom, "worker-from", -1, "internal: run as an isolated worker starting at this case id")
 	flag.Parse()
 	if *replay != "" {
 		os.Exit(replayFile(*replay))
 	}
+	if *observe != "" {
+		observeOne(*observe)
+		return
+	}
+	shrinkID, shrinkM = *shrink, *shrinkModel
 	if flag.NArg() == 1 && flag.Arg(0) == "gen-bootstrap" {
 		genBootstrap(*repo, *out)
 		return
@@ -35,6 +45,10 @@ func main() {
 		runC07(*out, *seed, *tier)
 	case "C01":
 		runC01(*out, *seed, *tier)
+	case "C03":
+		runC03(*out, *seed, *tier)
+	case "C04":
+		runC04(*out, *seed, *tier)
 	default:
 		fatal("unknown property %s", flag.Arg(0))
 	}
